@@ -52,6 +52,9 @@ func (p *pool) Acquire(ctx context.Context) (v wire) {
 		go func() {
 			<-poolCtx.Done()
 			if context.Cause(poolCtx) != errAcquireComplete { // no need to broadcast if the poolCtx is cancelled explicitly.
+				// take the lock so the broadcast cannot slip between a waiter's ctx check and its cond.Wait
+				p.cond.L.Lock()
+				p.cond.L.Unlock()
 				p.cond.Broadcast()
 			}
 		}()
